@@ -202,10 +202,15 @@ func runC05(args []string) int {
 	st := genStats{}
 	cfgAll := &fileGenCfg{inDomain: false, allowCsd: true, maxPerSlt: 40}
 	cfgDom := &fileGenCfg{inDomain: true, allowCsd: false, maxPerSlt: 40}
+	// array fields that are prefixes of backing arrays shared between the messages of the File (spare capacity)
+	cfgShare := &fileGenCfg{inDomain: true, allowCsd: false, maxPerSlt: 12, shareArr: true}
 	for i := 0; i < n; i++ {
 		cfg := cfgAll
 		if i%3 == 0 {
 			cfg = cfgDom
+		}
+		if i%6 == 1 {
+			cfg = cfgShare
 		}
 		c := genFile(rg, cfg, st)
 		if _, err := checkC05Case(r, d, c, i); err != nil {
